@@ -603,17 +603,9 @@ func c20Depth(w *World, r *Report) {
 		}
 		g := FullGraph(f)
 		var over []Edge
-		for _, b := range f.Blocks {
-			for _, in := range b.Instrs {
-				if bo, ok := in.(*ssa.BinOp); ok && (bo.Op == token.GTR || bo.Op == token.GEQ) {
-					if _, isC := bo.Y.(*ssa.Const); isC {
-						for _, e := range condEdges(bo) {
-							if e.truth {
-								over = append(over, e.Edge)
-							}
-						}
-					}
-				}
+		for _, e := range relEdges(f, func(v ssa.Value) bool { _, c := v.(*ssa.Const); return !c }, func(v ssa.Value) bool { _, c := constInt(v); return c }) {
+			if e.Rel == token.GTR || e.Rel == token.GEQ { // counter above / at the limit
+				over = append(over, e.Edge)
 			}
 		}
 		var exec ssa.CallInstruction
@@ -654,18 +646,17 @@ func c20Depth(w *World, r *Report) {
 		return
 	}
 	okS := false
-	for _, b := range key.Blocks {
-		for _, in := range b.Instrs {
-			if bo, ok := in.(*ssa.BinOp); ok && (bo.Op == token.GTR || bo.Op == token.GEQ) {
-				if ld, ok := bo.Y.(*ssa.UnOp); ok {
-					if gl, ok := ld.X.(*ssa.Global); ok && gl.Name() == "MaxNestedNameLevel" {
-						okS = true
-					}
-				}
-				if c, ok := bo.Y.(*ssa.Const); ok && c.Value != nil && strings.Contains(bo.X.Name()+bo.X.String(), "nestedNameLevel") {
-					okS = true
-				}
+	isLimit := func(v ssa.Value) bool {
+		if ld, ok := v.(*ssa.UnOp); ok {
+			if gl, ok := ld.X.(*ssa.Global); ok && gl.Name() == "MaxNestedNameLevel" {
+				return true
 			}
+		}
+		return false
+	}
+	for _, e := range relEdges(key, func(v ssa.Value) bool { return !isLimit(v) }, isLimit) {
+		if e.Rel == token.GTR || e.Rel == token.GEQ {
+			okS = true
 		}
 	}
 	r.Check(okS, "C20/DEPTH-LIMIT", "strvals/nesting", w.Pos(key.Pos()), "the nesting level is compared with MaxNestedNameLevel in the recursive key parser", "the recursive key parser no longer tests the nesting level against MaxNestedNameLevel")
